@@ -476,5 +476,55 @@ def r8_memo(chk: Check) -> None:
                          "MEMO-KEY(label producers and their consumer): the checks that read the coverage labels (negative_data_rejection / positive_data_acceptance and their helpers) judge a case against the schema of ITS operation; any cache on that path - in particular a module-level one, which outlives the schema object, so that `operation.label` of two loaded APIs collides - is keyed by everything the cached value is computed from (no such cache on the pinned tree: expected count 0, the selftest keeps a positive example)", floor=0)
 
 
+def r9_escapes_reemitted(chk: Check) -> None:
+    chk.rule("C03.R9", "RE-EMIT(escaped literals in the rebuilt pattern): where the pattern rebuilder in patterns.py copies a literal whose source spelling starts with a backslash (`pattern[pos] == '\\\\'`), the backslash is written to the result as well - unconditionally, or under a membership test in a constant set that contains every regex metacharacter; otherwise `\\.` is rebuilt as `.` (any character) and the rewritten pattern admits strings the declared one rejects: a coverage value presented as valid (and labelled POSITIVE) violates the declared pattern", floor=1)
+    P = chk.project
+    mod = P.module("specs/openapi/patterns.py")
+    META = set(".^$*+?{}[]()|\\")
+    n = 0
+    for fn in mod.functions.values():
+        if isinstance(fn.node, ast.Lambda):
+            continue
+        for x in walk_body(fn.node):
+            if not (isinstance(x, ast.If) and isinstance(x.test, ast.Compare) and isinstance(x.test.ops[0], ast.Eq) and const_str(x.test.comparators[0]) == "\\" and isinstance(x.test.left, ast.Subscript)):
+                continue
+            if not any(isinstance(s_, ast.AugAssign) and isinstance(s_.op, ast.Add) and isinstance(s_.value, ast.Constant) and s_.value.value == 2 for s_ in x.body):
+                continue  # not the `skip the two-character escape` arm
+            n += 1
+            construct = f"{fn.name}: the backslash of an escaped literal is copied"
+            direct = [s_ for s_ in x.body if isinstance(s_, ast.AugAssign) and const_str(s_.value) == "\\"]
+            if direct:
+                chk.ok("C03.R9", fn, construct, "unconditional `result += '\\\\'`", fn.loc(x))
+                continue
+            verdict: bool | None = None
+            why = "no re-emission of the backslash found in this arm"
+            for s_ in x.body:
+                if isinstance(s_, ast.If) and any(isinstance(y, ast.AugAssign) and const_str(y.value) == "\\" for y in s_.body):
+                    t = s_.test
+                    if isinstance(t, ast.Compare) and isinstance(t.ops[0], ast.In):
+                        comp = t.comparators[0]
+                        if isinstance(comp, ast.Name):
+                            vals = [v for _, v in assignments_to(mod.tree, comp.id) if v is not None]
+                            comp = vals[0] if len(vals) == 1 else comp
+                        if isinstance(comp, ast.Call) and comp.args and last_attr(comp) in ("frozenset", "set", "tuple"):
+                            comp = comp.args[0]
+                        chars = None
+                        if const_str(comp) is not None:
+                            chars = set(const_str(comp))  # type: ignore[arg-type]
+                        elif isinstance(comp, (ast.Set, ast.Tuple, ast.List)) and all(const_str(e) is not None for e in comp.elts):
+                            chars = {const_str(e) for e in comp.elts}
+                        if chars is not None:
+                            missing = sorted(META - chars)
+                            verdict = not missing
+                            why = f"the backslash is kept only for characters in a set that lacks {missing}: an escaped `{missing[0] if missing else ''}` loses its escape"
+                    if verdict is None:
+                        why = f"re-emission is conditional on `{unparse(s_.test, 60)}` (not decidable here)"
+            if verdict is None and why.startswith("no re-emission"):
+                verdict = False
+            chk.decide(verdict, "C03.R9", fn, construct, why, fn.loc(x))
+    if n < 1:
+        chk.undecided("C03.R9", "<discovery>", "escape arms=0", "no `pattern[pos] == backslash` arm found in patterns.py")
+
+
 def rules(tier: str) -> list:  # type: ignore[type-arg]
-    return [r1_label_source, r2_yield_discipline, r3_bound_presence, r3b_value_presence, r4_description_protocol, r5_documented_methods, r6_floor_arithmetic, rfwd_forwarding, r7_merged_pattern_width_checked, r8_memo]
+    return [r1_label_source, r2_yield_discipline, r3_bound_presence, r3b_value_presence, r4_description_protocol, r5_documented_methods, r6_floor_arithmetic, rfwd_forwarding, r7_merged_pattern_width_checked, r8_memo, r9_escapes_reemitted]
